@@ -69,7 +69,32 @@ def jobs(tier, seed):
             out.append({"kind": "bounds", "c": c, "var": rng.choice(vs)})
         else:
             out.append({"kind": "optimize", "c": c, "obj": oc, "text": obj_string(rng, oc), "maximize": rng.random() < 0.5})
+    for pin in PINNED:
+        out.append(dict(pin, kind="optimize"))
     return out
+
+
+# concrete instances (constants fixed): in symbolic runs the LP stub passes concrete problems to the real HiGHS
+PINNED = [
+    # HiGHS' presolve calls this feasible, unbounded problem infeasible (found by an independent reviewer's random probing)
+    {"c": {"in": ["x", "y", "z"], "out": [], "a": [{"x": 2, "z": 2}, {"x": 1, "y": 2, "z": 2}, {"x": -1, "y": -2, "z": -2}], "g": []}, "conc": {"pa0": -1, "pa1": 0, "pa2": 2}, "obj": {"x": -2, "y": -2}, "text": "-2x - 2y", "maximize": False},
+    {"c": {"in": ["x", "y", "z"], "out": [], "a": [{"x": 2, "z": 2}, {"x": 1, "y": 2, "z": 2}, {"x": -1, "y": -2, "z": -2}], "g": []}, "conc": {"pa0": -1, "pa1": 0, "pa2": 2}, "obj": {"x": 1}, "text": "x", "maximize": True},
+]
+
+
+class _Pinned:
+    """Context wrapper that hands out the pinned constants instead of symbols."""
+
+    def __init__(self, ctx, conc):
+        self._ctx, self._conc = ctx, conc
+
+    def __getattr__(self, n):
+        return getattr(self._ctx, n)
+
+    def const(self, name, lo=None, hi=None):
+        if name in self._conc:
+            return float(self._conc[name])
+        return self._ctx.const(name, lo, hi)
 
 
 def exact_opt(rows, names, obj, maximize):
@@ -101,7 +126,7 @@ def check_value(ctx, label, r, rows, names, obj, maximize):
 
 
 def run(ctx, job):
-    c = B.mk_contract(ctx, job["c"], "p")
+    c = B.mk_contract(_Pinned(ctx, job["conc"]) if job.get("conc") else ctx, job["c"], "p")
     if not job["c"]["a"] and not job["c"]["g"]:
         ctx.tag("unconstrained-contract")
     rows = list(O.rows_of(c.a)) + list(O.rows_of(c.g))
